@@ -59,6 +59,12 @@ def call_spellings(q):
     out.append(("bound_by_dunder_import", f"{top} = __import__('{top}')\n", q))
     out.append(("bound_by_import_module", f"import importlib\n{top} = importlib.import_module('{top}')\n", q))
     out.append(("bound_by_assignment", f"{top} = load_it()\n", q))
+    # the alias table is "last binding in source order wins", wherever the import statement sits (seeded change C01-m6: an import inside an
+    # `except` handler no longer re-bound a name that an earlier import had bound)
+    out.append(("rebound_later", f"import json as al\nimport {mod} as al\n", f"al.{f}"))
+    out.append(("rebound_in_handler", f"try:\n    import harmless_mod as al\nexcept ImportError:\n    import {mod} as al\n", f"al.{f}"))
+    out.append(("rebound_from_in_handler", f"try:\n    from fastlib import {f}\nexcept ImportError:\n    from {mod} import {f}\n", f))
+    out.append(("bound_in_else_branch", f"if flag:\n    import other_mod as al\nelse:\n    import {mod} as al\n", f"al.{f}"))
     return out
 
 
